@@ -219,7 +219,7 @@ def gen_cases(rng, tier):
                     obs["unknowns"] = ["u0"]
             # calls 0, 1: one loss object with two parameter objects (all modes); call 2: a second loss object
             # (same problem, other weights) interleaved with the first
-            h = _history(rng, 2, ["eager", "jit", "value_and_grad"], 6 if quick else 10)
+            h = _history(rng, 2, ["eager", "jit", "value_and_grad", "jit_arg"], 8 if quick else 12)
             extra = [[2, "eager"], [2, "value_and_grad" if quick else "jit"], [2, "eager"]]
             for x in extra:
                 h.insert(rng.randrange(1, len(h) + 1), x)
@@ -302,6 +302,13 @@ def run_loss(case):
             if id(loss) not in jitted:
                 jitted[id(loss)] = jax.jit(lambda pp, bb, loss=loss: loss.evaluate(pp, bb))
             return jitted[id(loss)](p, batch)
+        if mode == "jit_arg":
+            # the loss object itself is an ARGUMENT of the compiled function (what `jinns.solve` does): its
+            # dictionaries are rebuilt by the pytree round trip
+            import equinox as eqx
+            if "arg" not in jitted:
+                jitted["arg"] = eqx.filter_jit(lambda L, pp, bb: L.evaluate(pp, bb))
+            return jitted["arg"](loss, p, batch)
         (total, terms), _ = jax.value_and_grad(lambda pp: loss.evaluate(pp, batch), has_aux=True)(p)
         return total, terms
 
